@@ -1,11 +1,17 @@
 use crate::common::Ctx;
 use crate::report::Report;
 
-pub mod c01;
+pub mod handles;
+pub mod hist;
 
 pub fn dispatch(ctx: &Ctx, rep: &mut Report) -> bool {
     match ctx.prop.as_str() {
-        "C01" => c01::run(ctx, rep),
+        "C01" => hist::run_c01(ctx, rep),
+        "C02" => hist::run_c02(ctx, rep),
+        "C03" => hist::run_c03(ctx, rep),
+        "C06" => handles::run_c06(ctx, rep),
+        "C07" => handles::run_c07(ctx, rep),
+        "C08" => handles::run_c08(ctx, rep),
         _ => return false,
     }
     true
